@@ -182,6 +182,36 @@ int main()
                 out("F " + (e1.empty() ? "ok:" + hex(r1) : "!" + e1) + " " + (e2.empty() ? "ok:" + hex(r2) : "!" + e2) +
                     " " + (e3.empty() ? "ok:" + hex(r3) : "!" + e3));
             }
+            else if (c == "FMTL")
+            {
+                // FMTL <idx> <s:arg>... : formats written with the _nf user-defined literal
+                int idx = std::atoi(w[1].c_str());
+                auto feed = [&](auto f) {
+                    for (std::size_t i = 2; i < w.size(); ++i)
+                        f % unhex(w[i].substr(2));
+                    return f.str();
+                };
+                std::string r;
+                switch (idx)
+                {
+                case 0:
+                    r = feed("{}"_nf);
+                    break;
+                case 1:
+                    r = feed("a{}b{}"_nf);
+                    break;
+                case 2:
+                    r = feed("{{}}"_nf);
+                    break;
+                case 3:
+                    r = feed(""_nf);
+                    break;
+                default:
+                    r = feed("{} {}{} }{"_nf);
+                    break;
+                }
+                out("F ok:" + hex(r) + " ok:" + hex(r) + " ok:" + hex(r));
+            }
             else if (c == "RAISE")
             {
                 // RAISE <n|c> <kind:value>... : message of a raised library exception (0..6 arguments)
@@ -258,7 +288,10 @@ int main()
         }
         catch (std::exception& e)
         {
-            out(std::string(1, c[0]) + " !" + exname(e));
+            if (c == "FMTL")
+                out("F !" + exname(e) + " !" + exname(e) + " !" + exname(e));
+            else
+                out(std::string(1, c[0]) + " !" + exname(e));
         }
     }
     std::fflush(stdout);
